@@ -94,6 +94,9 @@ func (f *AdjustArray) Call(s *slip.Scope, args slip.List, depth int) (result sli
 	}
 	switch ta := args[1].(type) {
 	case slip.Fixnum:
+		if ta < 0 {
+			slip.TypePanic(s, depth, "dimensions", ta, "non-negative fixnum", "list of positive fixnums")
+		}
 		dims = []int{int(ta)}
 	case slip.List:
 		for _, v := range ta {
